@@ -21,6 +21,7 @@
 #include <unifex/never.hpp>
 #include <unifex/then.hpp>
 #include <unifex/just.hpp>
+#include <unifex/tracing/async_stack.hpp>
 using namespace unifex;
 using ex::dyn; using ex::erase; using ex::Mode;
 
@@ -200,10 +201,11 @@ void run_pipeline(int a1, int a2, int consumer) {
     dyn consumer_sender = consumer == 0
         ? erase(reduce_stream(std::move(st), 0, [&delivered](int acc, int x) noexcept { delivered.push_back(x); return acc + x; }))
         : erase(then(for_each(std::move(st), [&delivered](int x) noexcept { delivered.push_back(x); }), []() noexcept { return -1; }));
-    auto op = std::make_unique<dyn::op>(unifex::connect(consumer_sender, ex::rref{&top}));
+    using top_op_t = decltype(unifex::connect(consumer_sender, ex::rref{&top}));
+    std::unique_ptr<top_op_t> op(new top_op_t(unifex::connect(consumer_sender, ex::rref{&top})));
     bool stop_sent = false, trigger_fired = false;
     if (vmc::choose(2)) { src->request_stop(); stop_sent = true; ctx.trace += "S "; }
-    op->start();
+    unifex::start(*op);
     while (true) {
       std::vector<int> live;
       for (int i = 0; i < (int)ctx.pending.size(); ++i) if (ctx.pending[i].alive) live.push_back(i);
@@ -245,7 +247,11 @@ void run_pipeline(int a1, int a2, int consumer) {
   }
   for (auto& L : ctx.leaves) if (L.ops_alive != 0) fail("C13,C02", "trigger-op-leak", "take_until trigger operation leaked");
   if (ctx.sched_ops_alive != 0) fail("C13,C02", "sched-op-leak", "schedule() operation states leaked");
-  vmc::note(std::string(akname[a1]) + "|" + akname[a2] + ":" + std::to_string(delivered.size()));
+  if (vmcrt::arg(1, 0)) { std::string d; for (int x : delivered) d += std::to_string(x) + ","; vmc::note(g_case + "|" + ctx.trace + "|" + d); }
+  else vmc::note(std::string(akname[a1]) + "|" + akname[a2] + ":" + std::to_string(delivered.size()));
+#if !UNIFEX_NO_ASYNC_STACKS
+  if (unifex::tryGetCurrentAsyncStackRoot() != nullptr) fail("C20", "async-stack-root", "an async stack root is still installed on this thread after the stream pipeline completed");
+#endif
   ex::g = nullptr;
 }
 }  // namespace
